@@ -308,9 +308,16 @@ class DirectCalendar(IWorkCalendar):
             units: Optional[Dict[datetime, float]] = None
     ):
         if units is not None:
+            DirectCalendar.__check_units(units)
             self.__units = {_day_start(k): v for k, v in units.items()}
         else:
             self.__units = {}
+
+    @staticmethod
+    def __check_units(units: Dict[datetime, float]):
+        for v in units.values():
+            if v < 0:
+                raise RuntimeError("Value must be >= 0")
 
     def get_available_units(self, date: datetime) -> Optional[float]:
         key = _day_start(date)
@@ -320,6 +327,7 @@ class DirectCalendar(IWorkCalendar):
             return None
 
     def set_units(self, units: Dict[datetime, float]):
+        DirectCalendar.__check_units(units)
         self.__units = self.__units | units
 
     @property
